@@ -144,7 +144,7 @@ def write_ticks(case):
     for i, op in enumerate(case["ops"]):
         if op["op"] == "batch" and op.get("reject"):
             pass
-        elif op["op"] in ("batch", "txn"):
+        elif op["op"] in ("batch", "txn", "htxn", "jstxn"):
             t += 1
             ticks[i] = t
         elif op["op"] == "race":
@@ -204,6 +204,15 @@ def case_term(codes, case, obs):
     for i, op in enumerate(case["ops"]):
         oo = obs["ops"][i] if i < len(obs.get("ops", [])) else {}
         k = op["op"]
+        if k in ("hquery", "jsfind"):      # the lookup through POST /query {entityId} / the JS binding FindById (always merged)
+            k = "get"
+            if op["op"] == "jsfind":
+                op = dict(op, merge=True)
+        elif k in ("htxn", "jstxn"):       # POST /transactions / a transaction built in JavaScript
+            k = "txn"
+        elif k == "jschanges":             # the JS binding GetDatasetChanges: always latest-only
+            k = "changes"
+            op = dict(op, latest=True, reader=("js:" + op["reader"]) if op.get("reader") else None)
         if k == "batch" and op.get("reject"):
             # a batch the store must refuse as a whole (nil reference in its last entity): no write in the model;
             # accepted without an error = an observation no model and no spec explains
@@ -421,6 +430,18 @@ def gen_writes(rng, ndatasets, nops, pool, rich=True, reject=False):
             continue
         ops.append({"op": "batch", "ds": d, "ents": gen_batch(rng, pool, memo, d, rich)})
     return ops
+
+
+def js_safe(ents):
+    """entities a JavaScript snippet can build value-identically: no nested entities, no nil marker"""
+    out = []
+    for e in no_null(ents):
+        e = json.loads(json.dumps(e))
+        for k, v in list((e.get("props") or {}).items()):
+            if has_obj(v):
+                e["props"][k] = "obj"
+        out.append(e)
+    return out
 
 
 def no_null(ents):
